@@ -2109,7 +2109,8 @@ theorem sliceWrap_protoArrays (cfg : Cfg) (tag : String) (e : Bool) (sub : Ty) :
   unfold sliceWrap
   cases sub.wt <;> simp
   · cases e <;> simp
-  · by_cases h : cfg.protoArrays = true ∨ tag = "proto" <;> simp [h]
+  · cases sub.isProtoSlice <;> simp
+    by_cases h : cfg.protoArrays = true ∨ tag = "proto" <;> simp [h]
   · cases e <;> simp
 
 /-- with the switch set the builder's slice wrapper is never the plenc-only form. -/
@@ -2119,6 +2120,6 @@ theorem sliceWrap_no_lslice (cfg : Cfg) (h : cfg.protoArrays = true) (tag : Stri
   subst hu
   unfold sliceWrap at hb
   cases hw : sub.wt <;> simp [hw, h] at hb
-  all_goals (cases e <;> simp at hb)
+  all_goals (first | (cases e <;> simp at hb) | (cases hp : sub.isProtoSlice <;> simp [hp] at hb))
 
 end ProtoP
